@@ -55,14 +55,14 @@ def gen(rng, idx, tier):
     solver = str(rng.choice(["auto", "auto", "auto", "explicit", "wrapped", "cg", "nolda"]))
     if solver == "cg" and cls not in ("spd", "hpd"):
         solver = "auto"
-    n = int(rng.integers(3, 10))
+    n = int(rng.integers(3, 25 if tier == "thorough" else 10))
     nobj = 2 if rng.random() < 0.2 else 1
     flags = bool(rng.random() < 0.3)
     part = str(rng.choice(["free", "prescribed", "both"]))
     p_cplx_rhs = float(rng.choice([0.0, 0.4])) if (cplx or storage == "dense") and kind == "LinSolve" else 0.0
     p_fault = 0.2 if storage == "dense" and cls in ("spd", "hpd", "hindef_posdiag") else 0.0
     ops = []
-    for _ in range(int(rng.integers(3, 15))):
+    for _ in range(int(rng.integers(3, 30 if tier == "thorough" else 15))):
         o = int(rng.integers(0, nobj))
         r = rng.random()
         if r < 0.2:
